@@ -65,6 +65,16 @@ type fakeUp struct {
 	active    int32
 	maxActive int32
 	arrived   chan string // optional: names as they arrive
+	mutated   []string    // fields of a query that changed while it was inside Resolve: "<name> <field> <before> <after>"
+}
+
+// takeMutated returns (and forgets) the in-flight changes seen so far
+func (u *fakeUp) takeMutated() []string {
+	u.mu.Lock()
+	m := u.mutated
+	u.mutated = nil
+	u.mu.Unlock()
+	return m
 }
 
 func (u *fakeUp) Resolve(ctx context.Context, q query.Query, buf []byte) (int, resolver.ResolveInfo, error) {
@@ -87,6 +97,21 @@ func (u *fakeUp) Resolve(ctx context.Context, q query.Query, buf []byte) (int, r
 		u.mu.Unlock()
 	}
 	defer resample()
+	// the fields of a query are the request's own: whatever other requests arrive meanwhile, they are the same when
+	// the upstream is done as they were when it was called (who asked, at which address, with which hardware address)
+	peer0, loc0, mac0 := append([]byte{}, q.PeerIP...), append([]byte{}, q.LocalIP...), append([]byte{}, q.MAC...)
+	defer func() {
+		chk := func(field string, before, after []byte) {
+			if !bytes.Equal(before, after) {
+				u.mu.Lock()
+				u.mutated = append(u.mutated, sx(q.Name)+" "+field+" "+hx(before)+" "+hx(after))
+				u.mu.Unlock()
+			}
+		}
+		chk("PeerIP", peer0, q.PeerIP)
+		chk("LocalIP", loc0, q.LocalIP)
+		chk("MAC", mac0, q.MAC)
+	}()
 	a := atomic.AddInt32(&u.active, 1)
 	for {
 		m := atomic.LoadInt32(&u.maxActive)
@@ -798,6 +823,9 @@ func replyConc(r *rng, n int, base int) error {
 		}
 		wg.Wait()
 		calls := w.up.takeCalls()
+		for k, m := range w.up.takeMutated() {
+			emit("qmut", fmt.Sprintf("%d.%d", done, k), "=>", m)
+		}
 		for i, it := range udpItems {
 			var rep []byte
 			if len(ures[i]) > 0 {
